@@ -53,7 +53,9 @@ def load_defs(ctx):
 # statement speaks about: e.g. C14 does not mention error positions, so an error-position disagreement on a @check schema is
 # C10's, never C14's.
 SCOPE = {
-    'C01': {'C01'}, 'C02': {'C02'}, 'C09': {'C09'}, 'C10': {'C10'}, 'C06': {'C06'},
+    'C01': {'C01'}, 'C09': {'C09'}, 'C10': {'C10'}, 'C06': {'C06'},
+    'C02': {'C02', 'C09'},      # C09-labelled on the schemas C02 owns = the string a `@string` rule yields is not the slice it consumed
+
     'C07': {'C01', 'C02', 'C07'},
     'C08': {'C01', 'C02', 'C09', 'C08'},
     'C12': {'C01', 'C02', 'C14', 'C12'},
